@@ -146,6 +146,19 @@ Theorem inv_C04_after_compatible_param_change :
 Proof. exact run_after_compatible_param_change. Qed.
 Print Assumptions inv_C04_after_compatible_param_change.
 
+(** the sums survive any SEQUENCE of parameter changes keeping the denoms, and the whole invariant is
+    restored by the first change whose limits cover the usage again (e.g. the authority undoes a cut) *)
+Theorem inv_C04_after_param_changes :
+  forall Ps s, InvCore s -> (forall P', In P' Ps -> same_denoms (st_params s) P') -> InvCore (fold_left set_params Ps s).
+Proof. exact inv_core_after_param_changes. Qed.
+Print Assumptions inv_C04_after_param_changes.
+
+Theorem inv_C04_restored_by_covering_change :
+  forall s P', InvCore s -> Strict s -> same_denoms (st_params s) P' -> covers s P' ->
+    Inv (set_params s P') /\ Strict (set_params s P').
+Proof. exact inv_restored_by_covering_change. Qed.
+Print Assumptions inv_C04_restored_by_covering_change.
+
 Theorem raising_limits_is_compatible :
   forall s P', Inv s ->
     (forall d p p', get_param (st_params s) d = Some p -> get_param P' d = Some p' ->
